@@ -211,6 +211,8 @@ def enum_grids(tier):
     for n in range(1, N + 1):
         for k, other in enumerate((n, 1 + (n * 7) % 13, 1 + (n * 5) % 32)):
             yield {'n': n, 'other': other, 'dx': dxs[(n + k) % len(dxs)], 'prec': 64 if (n + k) % 4 else 32}
+        # a negative sample spacing (an axis that runs the other way: descending coordinates and frequencies, origin still on sample n//2)
+        yield {'n': n, 'other': 1 + (n * 3) % 11, 'dx': -dxs[n % len(dxs)], 'prec': 64}
 
 
 def check_grids(case, ctx):
@@ -239,10 +241,12 @@ def check_grids(case, ctx):
         xv, yv = ctx.call(make_xy_grid, shape, dx=dx, grid=False)
         U.check_close(xv, U.cvec(other) * dx, rt, 'make_xy_grid:vec', 'x vector')
         U.check_close(yv, U.cvec(n) * dx, rt, 'make_xy_grid:vec', 'y vector')
+        if dx < 0:
+            ctx.label('negative-dx')
         # diameter form: dx = diameter / max(shape)
-        diam = dx * max(shape)
+        diam = abs(dx) * max(shape)
         xd, yd = ctx.call(make_xy_grid, shape, diameter=diam)
-        U.check_close(xd, np.broadcast_to(U.cvec(other) * dx, shape), 10 * rt, 'make_xy_grid:diameter', 'x grid from diameter')
+        U.check_close(xd, np.broadcast_to(U.cvec(other) * abs(dx), shape), 10 * rt, 'make_xy_grid:diameter', 'x grid from diameter')
         ctx.require(xd[0, other // 2] == 0 and yd[n // 2, 0] == 0, 'make_xy_grid:zero', 'diameter grid origin not exact zero')
         # integer shape -> square
         xs, ys = ctx.call(make_xy_grid, n, dx=dx)
@@ -292,6 +296,9 @@ def check_centroid(case, ctx):
     # camera frames are integer typed: a bright source in a uint8 / uint16 / int16 / int32 frame as well as a float one
     dt, val = [('float64', 3.0), ('uint16', 60000), ('uint8', 250), ('int16', 30000), ('float32', 3.0), ('int32', 2**31 - 5)][(iy * 7 + ix * 3 + ny + nx) % 6]
     ctx.label('dtype:' + dt)
+    if dt in ('float64', 'float32', 'int16', 'int32') and (iy + 2 * ix + ny) % 3 == 0:
+        val = -val          # a dark point on a zero background (difference images, signed maps): the centroid is where the point is
+        ctx.label('negative-source')
     d = np.zeros((ny, nx), dtype=dt)
     d[iy, ix] = val
     c = ctx.call(centroid, d, dx)
